@@ -70,7 +70,7 @@ int run_c03(const Args& a, Recorder& rec) {
 // ------------------------------------------------------------------------------------------------ C09
 int run_c09(const Args& a, Recorder& rec) {
     Clock clk; std::vector<double> betas = { 1e-3, 0.5, 5, 40, 1e3 };
-    std::vector<PlanItem> plan = plan_modelspace(a, "g"); for (auto& it : plan) it.opts.with_offsets = true;
+    std::vector<PlanItem> plan = plan_modelspace(a, "m"); for (auto& it : plan) it.opts.with_offsets = true;
     std::vector<ModeSpec> modes = { { SYM_DEFAULT, "default", {} }, { SYM_IGNORE, "ignored", {} } };
     for_each_state(a, rec, plan, [&](Ctx& c0) {
         bool counted = false;
